@@ -43,6 +43,9 @@ Definition u32_max : N := 2 ^ 32 - 1.
 
 Definition add128 (a b : N) : option N := if a + b <=? u128_max then Some (a + b) else None.
 Definition add64 (a b : N) : option N := if a + b <=? u64_max then Some (a + b) else None.
+(* helpers::checked_deadline: now + period in seconds, refused unless a Timestamp (nanoseconds in a u64) can hold it *)
+Definition deadline (now period : N) : option N :=
+  if (now + period) * 1000000000 <=? u64_max then Some (now + period) else None.
 (* Uint128::checked_sub *)
 Definition sub_checked (a b : N) : option N := if b <=? a then Some (a - b) else None.
 (* Uint128::multiply_ratio(self, num, den): panics on den = 0 and when the quotient
